@@ -8,7 +8,7 @@ KINDS = ["sort", "bsort", "visual", "bvisual"]
 RULE = ("random multi-scene histories for every tracker kind (Sort, BatchSort, VisualSort, BatchVisualSort), both metrics, shards 1..4, history 1..5, idle 0..3: 0..n detections per call "
         "(moving objects, missed detections, sudden jumps, near-duplicate detections of one object, clutter, rotated and axis-aligned boxes, confidences below and above the minimum, custom ids); "
         "every record is compared with the model (id, epoch, scene, length, custom id, voting type, token of the echoed box; the executor additionally compares the echoed box bit-for-bit with the submitted one) and the live/wasted stores are dumped after every call; "
-        "non-trivial = a call with >=2 detections, with two detections gated for the same track, with a continuation, a multi-scene batch, tracks of several scenes stored, an expired-but-uncollected track present, or a periodic collection; distinct = distinct request line")
+        "non-trivial = a call with >=2 detections, with two detections gated for the same track, with a continuation, a multi-scene batch, tracks of several scenes stored, an expired-but-uncollected track present, or a periodic collection; distinct = distinct request line; the record's predicted box must equal the last stored predicted box of its track")
 TRUSTED_BASE = ["Lean 4.33 kernel", "axioms: propext, Quot.sound, Classical.choice (at most)",
                 "model SimVerif/Model/Tracker.lean tied to the four predict implementations by the differential run; the distance table of each call is obtained from the tracker's own store through public API and the association choice is read off the implementation's records and validated (admissible, gated, one-to-one, maximum weight, fresh ids)",
                 "random candidate ids colliding with a live id or 0 (probability ~2^-64 per call) are not modelled"]
